@@ -23,6 +23,7 @@ class InvGhost:
         self.allow_other_rejections = False
         self.regs = None              # register-file model (C17/C19)
         self.never_refused = set()    # command keys of the mandatory blocks
+        self.script = []              # outcome of every transport request, in order (the witness of a scenario)
 
 
 def ghost(ex):
@@ -83,11 +84,43 @@ def make_response(ex, command, payload):
     return resp
 
 
+def note_protocol(ex, proto):
+    g = ghost(ex)
+    if hasattr(g, "protocols") and proto is not None and not any(p is proto for p in g.protocols):
+        g.protocols.append(proto)
+
+
+def frame_shape(command):
+    from goodwe.protocol import (Aa55ProtocolCommand, ModbusRtuProtocolCommand, ModbusTcpProtocolCommand)
+    if isinstance(command, ModbusRtuProtocolCommand):
+        return 5, 2
+    if isinstance(command, ModbusTcpProtocolCommand):
+        return 9, 0
+    if isinstance(command, Aa55ProtocolCommand):
+        return 7, 2
+    return 0, 0
+
+
+def make_framed_response(ex, command, n):
+    """response whose raw frame is one array: header, payload of n bytes, trailer; the payload is a view of it"""
+    from goodwe.protocol import ProtocolResponse
+    hdr, tail = frame_shape(command)
+    frame = ex.fresh_arr("frame")
+    nt = zt(n)
+    resp = ex.new_object(ProtocolResponse.__new__(ProtocolResponse))
+    resp.raw_data = SBytes([ASeg(frame, 0, nt + (hdr + tail))])
+    payload = SBytes([ASeg(frame, hdr, nt)])
+    resp.command = command
+    resp._bytes = ex.new_object(MBytesIO(payload))
+    return resp, payload
+
+
 def socket_outcomes(ex, inv, command, excs):
     """which outcomes of the transport are explored for this request (prunes branches that the ghost state of the
     simulated inverter already excludes)"""
     from goodwe.exceptions import RequestRejectedException, RequestFailedException
     g = ghost(ex)
+    note_protocol(ex, getattr(inv, "_protocol", None))
     key = command_key(command)
     allow_return = True
     out = []
@@ -118,8 +151,9 @@ def socket_result(ex, inv, command):
     if g.regs is not None:
         return g.regs.answer(ex, inv, command, kind)
     n = payload_length(ex, command)
-    payload = SBytes.fresh(ex, "payload", n)
-    return make_response(ex, command, payload)
+    resp, payload = make_framed_response(ex, command, n)
+    g.script.append({"kind": "return", "payload": payload})
+    return resp
 
 
 def socket_raised(ex, E, inv, command):
@@ -140,11 +174,13 @@ def socket_raised(ex, E, inv, command):
             ex.assume(g.refused[key])
         if g.regs is not None and not g.regs.may_refuse(ex, command, kind):
             ex.assume(False)
+        g.script.append({"kind": "raise", "cls": "RequestRejectedException", "message": msg})
         return ex.new_object(RequestRejectedException(msg))
     if E is RequestFailedException:
         if not g.allow_failures:
             ex.assume(False)
         e = ex.new_object(RequestFailedException("no valid response", ex.fresh_int("failures")))
+        g.script.append({"kind": "raise", "cls": "RequestFailedException", "message": "no valid response"})
         return e
     raise Unsupported(f"socket_raised {E}")
 
@@ -229,6 +265,17 @@ def install_hooks():
 
 # ---- running coroutines of the inverter classes ----------------------------------------------------------------------------
 def run_coro(ex, fn, *args):
+    """run the *body* of a (bound) coroutine method of the code under verification, even if it has a contract"""
+    info = ex.world.funcinfo(fn)
+    if info is not None and info.is_async:
+        from .models import defining_class
+        f = getattr(fn, "__func__", fn)
+        selfobj = getattr(fn, "__self__", None)
+        allargs = ([selfobj] if selfobj is not None else []) + list(args)
+        bound = ex.bind_args(info.node.args, list(f.__defaults__ or ()), dict(f.__kwdefaults__ or {}), allargs, {},
+                             info.qualname)
+        cls = defining_class(ex, info, fn)
+        return aio.Coro(ex, info, bound, f.__globals__, cls, None, selfobj, fn).run(ex)
     c = ex.call(fn, list(args), {})
     return aio.await_value(ex, c)
 
@@ -248,8 +295,8 @@ def ids(seq):
 
 def only_reads(ex, name="C18_only_read_requests"):
     g = ghost(ex)
-    bad = [k for k, c in g.requests if k != "read"]
-    ex.check(name, not bad, detail=f"{len(bad)} non-read request(s) among {len(g.requests)}")
+    bad = [k for k, c in g.requests if k == "write"]
+    ex.check(name, not bad, detail=f"{len(bad)} write request(s) among {len(g.requests)}")
 
 
 # ---- ET ----------------------------------------------------------------------------------------------------------------------
@@ -466,4 +513,243 @@ def es_runtime(ex):
             continue
         want = ids(ex.call(inv.sensors, [], {}))
         ex.check("C15_keys_equal_sensors", sorted(data.keys()) == sorted(set(want)))
+    only_reads(ex)
+
+
+def execute_outcomes(ex, command, excs, protocol=None):
+    from goodwe.exceptions import RequestRejectedException, RequestFailedException, MaxRetriesException
+    g = ghost(ex)
+    note_protocol(ex, protocol)
+    out = []
+    for E in excs:
+        if E in (RequestFailedException, MaxRetriesException) and not g.allow_failures:
+            continue
+        out.append(E)
+    return True, out
+
+
+def execute_raised(ex, E, command):
+    from goodwe.exceptions import RequestRejectedException, RequestFailedException, MaxRetriesException
+    g = ghost(ex)
+    g.requests.append((request_kind(ex, command), command))
+    if E is RequestRejectedException:
+        from .models import fresh_strid
+        return ex.new_object(RequestRejectedException(fresh_strid(ex, "reason")))
+    if E is MaxRetriesException:
+        return ex.new_object(MaxRetriesException())
+    return ex.new_object(RequestFailedException("no valid response"))
+
+
+# ---- C09: the failure counter of Inverter._read_from_socket -----------------------------------------------------------------
+def read_from_socket_counter(ex):
+    """the real body of Inverter._read_from_socket against ProtocolCommand.execute's contract, from an arbitrary
+    counter value"""
+    from goodwe.exceptions import RequestFailedException, RequestRejectedException, InverterError
+    install_hooks()
+    inv = new_inverter(ex, "ET")
+    g = ghost(ex)
+    g.allow_failures = True
+    g.consistent_refusal = False
+    count = ex.fresh_int("count")
+    ex.assume(mk_bool(count.t >= 0))
+    ex.setattr(inv, "_consecutive_failures_count", count)
+    ex.inputs = {"count": count}
+    cmd = inv._READ_RUNNING_DATA
+    info = ex.world.func("goodwe.inverter.Inverter._read_from_socket")
+    fn = ex.world.resolve("goodwe.inverter.Inverter._read_from_socket")
+    coro = aio.Coro(ex, info, {"self": inv, "command": cmd}, fn.__globals__, type(inv).__mro__[1], None, inv, fn)
+    try:
+        coro.run(ex)
+    except PyRaise as pr:
+        e = pr.exc
+        ex.check("C09_raises_only_failed_or_rejected", isinstance(e, (RequestFailedException, RequestRejectedException)),
+                 detail=repr(e))
+        new = inv._consecutive_failures_count
+        if isinstance(e, RequestFailedException):
+            ex.check("C09_failure_increments_counter", mk_bool(iterm(new) == count.t + 1))
+            ex.check("C09_failure_reports_counter", mk_bool(iterm(e.consecutive_failures_count) == count.t + 1))
+        else:
+            ex.check("C09_rejection_leaves_counter", mk_bool(iterm(new) == count.t))
+        return
+    ex.check("C09_success_resets_counter", mk_bool(iterm(inv._consecutive_failures_count) == 0))
+
+
+# ---- C18: the read-only API transmits only reads; invalid setter arguments transmit no write -------------------------------
+READONLY = {
+    "ET": ("read_device_info", "read_runtime_data", "read_sensor", "read_setting", "read_settings_data",
+           "get_grid_export_limit", "get_operation_modes", "get_operation_mode", "get_ongrid_battery_dod"),
+    "DT": ("read_device_info", "read_runtime_data", "read_sensor", "read_setting", "read_settings_data",
+           "get_grid_export_limit", "get_operation_modes", "get_operation_mode", "get_ongrid_battery_dod"),
+    "ES": ("read_device_info", "read_runtime_data", "read_sensor", "read_setting", "read_settings_data",
+           "get_grid_export_limit", "get_operation_modes", "get_operation_mode", "get_ongrid_battery_dod"),
+}
+
+
+def settings_variants(ex, inv, family):
+    """the settings dictionary an object can hold after read_device_info (firmware-dependent additions)"""
+    k = 0
+    if family == "ET":
+        k = ex.choose(3, tag="settings.variant")
+        if k >= 1:
+            inv._settings.update({s.id_: s for s in type(inv)._ET__settings_arm_fw_19})
+        if k >= 2:
+            inv._settings.update({s.id_: s for s in type(inv)._ET__settings_arm_fw_22})
+    elif family == "DT":
+        k = ex.choose(3, tag="settings.variant")
+        if k == 1:
+            inv._settings.update({s.id_: s for s in type(inv)._DT__settings_single_phase})
+        if k == 2:
+            inv._settings.update({s.id_: s for s in type(inv)._DT__settings_three_phase})
+    else:
+        k = ex.choose(2, tag="settings.variant")
+        if k == 1:
+            inv._settings.update({s.id_: s for s in type(inv)._ES__settings_arm_fw_14})
+    return k
+
+
+def readonly_call(ex, family, method):
+    from goodwe.exceptions import InverterError
+    install_hooks()
+    ex.contracts = {k: v for k, v in ex.contracts.items() if not k.endswith(".read")}
+    inv = new_inverter(ex, family)
+    ex.new_object(inv)                      # fresh per path: the real constructor ran on this path
+    ex.new_object(inv._settings)
+    g = ghost(ex)
+    g.allow_failures = True
+    g.allow_other_rejections = True
+    g.consistent_refusal = False
+    ex.setattr(inv, "serial_number", ex.fresh_str("serial"))
+    ex.setattr(inv, "arm_version", ex.fresh_int("arm_version"))
+    ex.setattr(inv, "dsp1_version", ex.fresh_int("dsp1_version"))
+    variant = settings_variants(ex, inv, family)
+    ex.inputs = {"family": family, "method": method, "script": g.script, "variant": variant}
+    args = []
+    if method in ("read_sensor", "read_setting"):
+        pool = [s.id_ for s in (inv.sensors() if method == "read_sensor" else inv.settings())]
+        pool = sorted(set(pool)) + ["modbus-47000", "no_such_id", "time"]
+        args = [pool[ex.choose(len(pool), tag="id")]]
+    ex.inputs["args"] = list(args)
+    if method == "get_operation_modes":
+        args = [bool(ex.choose(2, tag="include_emulated"))]
+        ex.inputs["args"] = list(args)
+    fn = getattr(inv, method)
+    ex.path_end_hooks.append(lambda: only_reads(ex))
+    if family in ("ET", "DT") and method == "read_settings_data":
+        ex.verify_key = f"goodwe.{family.lower()}.{family}.read_settings_data"   # its loop runs under the invariant rule
+    try:
+        res = run_coro(ex, fn, *args)
+        if method == "read_settings_data" and family in ("ET", "ES"):
+            want = []
+            for s in ex.call(inv.settings, [], {}):
+                if s.id_ not in want:
+                    want.append(s.id_)
+            ex.check("C11_every_setting_id_reported", list(res.keys()) == want)
+    except PyRaise as pr:
+        listed = not args or args[0] not in ("no_such_id", "time", "modbus-47000") or method == "read_setting"
+        if listed and not isinstance(pr.exc, NotImplementedError):     # NotImplementedError rows: finding of C16
+            ex.check("C09_only_documented_exceptions", isinstance(pr.exc, (InverterError, ValueError)),
+                     detail=repr(pr.exc)[:200])
+    only_reads(ex)
+
+
+def invalid_setter(ex, family, case):
+    """setters with out-of-range / unknown arguments: no write reaches the transport; ValueError where documented"""
+    from goodwe.exceptions import InverterError
+    from goodwe.inverter import OperationMode
+    install_hooks()
+    inv = new_inverter(ex, family)
+    ex.new_object(inv)
+    ex.new_object(inv._settings)
+    g = ghost(ex)
+    g.allow_failures = True
+    g.allow_other_rejections = True
+    g.consistent_refusal = False
+    ex.setattr(inv, "serial_number", ex.fresh_str("serial"))
+    ex.setattr(inv, "arm_version", ex.fresh_int("arm_version"))
+    ex.setattr(inv, "dsp1_version", ex.fresh_int("dsp1_version"))
+    settings_variants(ex, inv, family)
+    x = ex.fresh_int("arg")
+    y = ex.fresh_int("arg2")
+    ex.inputs = {"family": family, "case": case, "arg": x, "arg2": y}
+    must_raise_value_error = False
+    if case == "export_limit_negative":
+        ex.assume(mk_bool(x.t < 0))
+        fn, args = inv.set_grid_export_limit, [x]
+    elif case == "dod_out_of_range":
+        ex.assume(mk_bool(z3.Or(x.t < 0, x.t > 100)))
+        fn, args = inv.set_ongrid_battery_dod, [x]
+    elif case == "eco_power_out_of_range":
+        ex.assume(mk_bool(z3.Or(x.t < 0, x.t > 100)))
+        mode = (OperationMode.ECO_CHARGE, OperationMode.ECO_DISCHARGE)[ex.choose(2, tag="mode")]
+        fn, args = inv.set_operation_mode, [mode, x, y]
+        must_raise_value_error = True
+    elif case == "eco_soc_out_of_range":
+        ex.assume(mk_bool(z3.Or(y.t < 0, y.t > 100)))
+        mode = (OperationMode.ECO_CHARGE, OperationMode.ECO_DISCHARGE)[ex.choose(2, tag="mode")]
+        fn, args = inv.set_operation_mode, [mode, x, y]
+        must_raise_value_error = True
+    elif case == "unknown_setting":
+        fn, args = inv.write_setting, ["no_such_setting", x]
+        must_raise_value_error = True
+    else:
+        raise Unsupported(case)
+    raised = None
+    try:
+        run_coro(ex, fn, *args)
+    except PyRaise as pr:
+        raised = pr.exc
+    if family == "DT" and case in ("dod_out_of_range", "eco_power_out_of_range", "eco_soc_out_of_range"):
+        ex.check("C18_unsupported_operation_raises_InverterError", isinstance(raised, InverterError))
+    elif must_raise_value_error:
+        ex.check("C18_invalid_argument_raises_ValueError", isinstance(raised, ValueError), detail=repr(raised))
+    else:
+        ex.check("C18_invalid_argument_raises_nothing_unexpected",
+                 raised is None or isinstance(raised, (ValueError, InverterError)), detail=repr(raised))
+    g2 = ghost(ex)
+    writes = [k for k, c in g2.requests if k != "read"]
+    ex.check("C18_no_write_for_invalid_argument", not writes, detail=f"{len(writes)} write(s) transmitted")
+
+
+# ---- entry points: connect / discover / search_inverters (C05 binding, C09, C18) -----------------------------------------------
+def entrypoint(ex, which):
+    """goodwe.connect / discover / search_inverters with symbolic timeout and retries: every protocol object that
+    sends a request carries exactly the configured values; only reads are sent; only InverterError escapes"""
+    import goodwe
+    from goodwe.exceptions import InverterError
+    install_hooks()
+    g = ghost(ex)
+    g.allow_failures = True
+    g.allow_other_rejections = True
+    g.consistent_refusal = False
+    g.protocols = []
+    T = ex.fresh_int("timeout")
+    R = ex.fresh_int("retries")
+    ex.assume(mk_bool(z3.And(T.t >= 1, T.t <= 3600, R.t >= 0, R.t <= 100)))
+    ex.inputs = {"which": which, "timeout": T, "retries": R, "script": g.script}
+    want_T, want_R = T, R
+    if which == "discover_udp":
+        coro = ex.call(goodwe.discover, ["host", 8899, T, R], {})
+    elif which == "discover_tcp":
+        coro = ex.call(goodwe.discover, ["host", 502, T, R], {})
+    elif which.startswith("connect_"):
+        fam = which.split("_")[1]
+        family = None if fam == "auto" else fam
+        coro = ex.call(goodwe.connect, ["host", 8899, family, 0, T, R], {})
+    elif which == "search_inverters":
+        coro = ex.call(goodwe.search_inverters, [], {})
+        want_T, want_R = 1, 0
+    else:
+        raise Unsupported(which)
+    raised = None
+    try:
+        coro if not isinstance(coro, (aio.Coro, aio.ContractCoro)) else aio.await_value(ex, coro)
+    except PyRaise as pr:
+        raised = pr.exc
+    ex.check("C09_only_InverterError", raised is None or isinstance(raised, InverterError),
+             detail=None if raised is None else f"{type(raised).__name__}: {raised}"[:200])
+    for p in g.protocols:
+        ex.check("C05_configured_timeout_and_retries_reach_the_transport",
+                 mk_bool(z3.And(iterm(p.timeout) == iterm(want_T), iterm(p.retries) == iterm(want_R))),
+                 detail=f"{type(p).__name__}: timeout={p.timeout} retries={p.retries}")
+    ex.check("C05_some_request_was_made", bool(g.protocols))
     only_reads(ex)
